@@ -6,7 +6,7 @@ RU:  L1 every path applies to the stored factor U the operation that mirrors eac
 Chain: L4 every column insertion / removal updates pivotToColumnIndex_ on the same path; the stored barcode gets
      exactly one event per inserted cell
 """
-from gsa import facts, ir, paths
+from gsa import facts, ir, kinds, paths
 from gsa.facts import Unit, rel, AnalysisBroken
 from gsa.report import Check
 
@@ -281,6 +281,31 @@ def run_chain_add(chk, F):
            '%s:%d' % (rel(f['file']), f['line']), bad is None, bad or '', key='E2|Chain_matrix::_add_to|pivot-swap')
 
 
+def run_pairing_kinds(chk, F):
+    """The barcode bookkeeping of the boundary and RU flavours maps cell identifiers to positions (idToPosition_) and
+    positions back to identifiers (the position mapper's map_): identifiers and positions never meet (index-kind
+    analysis; positions and column indices coincide for these flavours and are one kind here)"""
+    files = ('ru_pairing.h', 'base_pairing.h', 'boundary_cell_position_to_id_mapper.h')
+    fns = [f for f in F.functions if f['inst'] in (0, 2) and f['file'].split('/')[-1] in files]
+    kt = {'Index': 'POS', 'Pos_index': 'POS', 'ID_index': 'ID'}
+    conts = {'indexToBar_': ('POS', None), 'deathToBar_': ('POS', None), 'idToPosition_': ('ID', 'POS'),
+             'map_': ('POS', 'ID')}
+    kc = kinds.KindChecker(fns, conts, kinds_table=kt)
+    for f in fns:
+        before, c0 = len(kc.reports), kc.checked
+        kc.run(f)
+        reps = kc.reports[before:]
+        if kc.checked == c0 and not reps:
+            continue
+        owner = f.get('clsname') or '-'
+        chk.ob('E11-index-kinds', '%s::%s keeps cell identifiers and positions apart (%d meetings)' % (
+            owner, f['name'], kc.checked - c0), '%s:%d' % (rel(f['file']), f['line']), not reps,
+            '; '.join('line %s: %s' % (nd.get('l'), m) for nd, m in reps[:3]),
+            key='E11|%s::%s|%s' % (owner, f['name'], reps[0][1][:60] if reps else ''))
+    chk.count('identifier/position meetings checked', kc.checked)
+    chk.expect_count('E11-index-kinds', 'identifier/position meetings', kc.checked, 10)
+
+
 def run(tier, replay=None):
     chk = Check('C05', tier,
                 'Static decision of invariant-maintenance clauses of the persistence-matrix flavours: on every path of '
@@ -295,6 +320,56 @@ def run(tier, replay=None):
     run_ru_pivots_and_bars(chk, F)
     run_chain(chk, F)
     run_chain_add(chk, F)
+    run_pairing_kinds(chk, F)
+    run_dimension_flow(chk, F)
     chk.assumptions += ['clang 14 parser; template patterns', 'U is stored transposed for Z2: a column addition on R '
                         'is mirrored by add_to with exchanged indices or by one pushed entry']
     return chk
+
+
+def run_dimension_flow(chk, F):
+    """E10: a cell inserted with an explicit dimension keeps it: inside every function that receives a Dimension
+    parameter, each call handing a Dimension on (to a callee whose parameter is declared Dimension) passes a value
+    that is data-dependent on that parameter - never a constant or an unrelated value"""
+    fams = ('Chain_matrix', 'Boundary_matrix', 'RU_matrix', 'Base_matrix', 'Id_to_index_overlay',
+            'Position_to_index_overlay', 'Matrix')
+    fns = [f for f in F.functions if f['inst'] in (0, 2) and f.get('clsname') in fams]
+    dimpos = {}
+    for f in fns:
+        pos = [i for i, p in enumerate(f.get('params', [])) if (p.get('t') or '').split('::')[-1].replace(
+            'const ', '').strip() == 'Dimension']
+        if pos:
+            dimpos.setdefault((f['name'], len(f['params'])), set()).update(pos)
+    n = 0
+    for f in fns:
+        dps = [p for p in f.get('params', []) if (p.get('t') or '').split('::')[-1].strip() == 'Dimension']
+        if not dps or f.get('body') is None:
+            continue
+        seeds = {p['id'] for p in dps}
+        # def-use closure over locals and over reassignments of the parameter itself
+        dep = set(seeds)
+        changed = True
+        while changed:
+            changed = False
+            for x in ir.walk(f['body']):
+                if x.get('k') == 'VarDecl' and x.get('init') is not None and x.get('id') not in dep:
+                    if any(y.get('k') == 'DeclRefExpr' and y.get('id') in dep for y in ir.walk(x['init'])):
+                        dep.add(x['id'])
+                        changed = True
+        for x in ir.walk(f['body']):
+            if not ir.is_call(x):
+                continue
+            args = ir.call_args(x)
+            pos = dimpos.get((ir.call_name(x), len(args)))
+            if not pos:
+                continue
+            for i in pos:
+                a = args[i]
+                n += 1
+                ok = any(y.get('k') == 'DeclRefExpr' and y.get('id') in dep for y in ir.walk(a))
+                chk.ob('E10-dimension', '%s::%s hands its dimension parameter on to %s' % (
+                    f['clsname'], f['name'], ir.call_name(x)), '%s:%s' % (rel(f['file']), x.get('l')), ok,
+                    '' if ok else 'the dimension argument `%s` does not depend on the dimension the caller supplied: '
+                    'the cell is stored (and its bar reported) in another dimension' % ir.show(a)[:40],
+                    key='E10|%s::%s|dimension->%s|%d' % (f['clsname'], f['name'], ir.call_name(x), len(f['params'])))
+    chk.expect_count('E10-dimension', 'dimension hand-overs', n, 10)
